@@ -98,7 +98,9 @@ def neutral_terms(family, n, rs):
             t.append(Op("sigma_z", i, c()))
         for i in range(n - 1):
             t.append(Op("sigma_z sigma_z", [i, i + 1], c()))
-            t.append(Op("sigma_+ sigma_-", [i, i + 1], c()))
+            v = c()
+            t.append(Op("sigma_+ sigma_-", [i, i + 1], v))
+            t.append(Op("sigma_- sigma_+", [i, i + 1], v))      # hermitian conjugate: the operator is a Hamiltonian
     elif family == "two":
         def qn(i, s):
             return [s, 0] if i % 2 == 0 else [0, s]
